@@ -58,24 +58,31 @@ def flags(p):
            (0 if p["edamp"] else 32768)
 
 
-def feature(p, a):
+def feature(p, a, u=None):
+    """input class of a step for signatures: integrator, actuator kind and the options / actuator features in play"""
     f = [p["integ"], "act=" + a["dyn"]]
-    for k in ("edamp", "damper", "spring", "actuation", "groupon"):
+    # (the passive flags eulerdamp / damper / spring are named in the description only: a failure caused by the
+    #  actuator shows up under every combination of them and must keep one signature)
+    if a["dyn"] == "off":
+        for k in ("edamp", "damper", "spring"):
+            if not p[k]:
+                f.append("no" + k)
+    for k in ("actuation", "groupon"):
         if not p[k]:
             f.append("no" + k)
     if a["dyn"] != "off":
         if a["early"]:
             f.append("actearly")
-        if a["clim"]:
-            f.append("ctrllimited")
+        if a["clim"] and u is not None and not (L.fr(a["clo"]) <= L.fr(u) <= L.fr(a["chi"])):
+            f.append("ctrl-outside-ctrlrange")
         if a["alim"]:
             f.append("actlimited")
-        if a["g2"][0] or a["b2"][0]:
-            f.append("velgain")
+        if a["g2"][0]:
+            f.append("gain-kv")
+        if a["b2"][0]:
+            f.append("bias-kv")
         if a["adamp"][0] or a["aarm"][0]:
             f.append("reflected")
-    if p["b"][0]:
-        f.append("damping")
     return ":".join(f)
 
 
@@ -193,7 +200,7 @@ def judge(ctx, rp, r, setup_models):
             continue
         bad_beh.add(bi)
         f, want, got = mm
-        sig = "step:%s:%s" % (f, feature(p, a))
+        sig = "step:%s:%s" % (f, feature(p, a, ev["u"]))
         what = ("mj_step with %s (h=%s m=%s k=%s b=%s f=%s act=%s flags=%d) from q=%s v=%s act=%s ctrl=%s, step %d of the "
                 "behaviour: %s = %r, Integrators.tla says %s (%s comparison)" % (
                     p["integ"], L.fr(p["h"]), L.fr(p["m"]), L.fr(p["k"]), L.fr(p["b"]), L.fr(p["f"]), p["act"], flags(p),
@@ -286,32 +293,40 @@ def run(ctx):
     q = ctx.quick
     jobs = {
         "mc": ("dump", "Integrators_MC" if q else "Integrators_Deep"),
-        "act": ("dump", "Integrators_Act" if q else "Integrators_ActDeep"),
+        "act": ("dump", None if q else "Integrators_ActDeep"),
         "sim": ("sim", "Integrators_Sim", 150 if q else 1500, 40),
-        "quat": ("dump", "Integrators_Quat" if q else "Integrators_QuatDeep"),
+        "quat": ("dumpq", "FreeBody_MC" if q else "FreeBody_Deep"),
+        "neg1": ("neg", "Integrators_Neg1"),
+        "neg2": ("neg", None if q else "Integrators_Neg2"),
     }
     to = 240 if q else 1500
 
     def go(name):
         j = jobs[name]
+        if j[0] == "neg":
+            return L.negative_run("Integrators", j[1])
         if j[0] == "dump":
-            return L.dump_evs("Integrators", j[1], want=("step", "quat"), timeout=to)
+            return L.dump_evs("Integrators", j[1], want=("step",), timeout=to)
+        if j[0] == "dumpq":
+            return L.dump_evs("FreeBody", j[1], want=("quat",), timeout=to)
         return L.simulate_evs("Integrators", j[1], num=j[2], depth=j[3], seed=ctx.seed + 5, timeout=to)
 
-    with cf.ThreadPoolExecutor(4) as ex:
-        futs = {n: ex.submit(go, n) for n in jobs}
-        out = {n: f.result() for n, f in futs.items()}
-    need_all = ["SetCtrl", "Forward", "Euler", "Implicit", "RKStage", "RKFinish"]
-    ctx.tlc_ok(out["mc"][0], jobs["mc"][1], need_actions=need_all)
-    ctx.tlc_ok(out["act"][0], jobs["act"][1], need_actions=need_all)
-    ctx.tlc_ok(out["sim"][0], jobs["sim"][1])
-    ctx.tlc_ok(out["quat"][0], jobs["quat"][1], need_actions=["QuatStep"])
+    with cf.ThreadPoolExecutor(6) as ex:
+        futs = {n: ex.submit(go, n) for n in jobs if jobs[n][1]}
+        out = {n: (futs[n].result() if n in futs else None) for n in jobs}
+    for k in ("mc", "act", "sim", "quat"):
+        if out[k] is not None:
+            ctx.tlc_ok(out[k][0], jobs[k][1])
     # TLC-level negative controls: wrong schemes must violate the specification's invariants
-    L.negative_tlc(ctx, "Integrators", "Integrators_Neg1", "spec variant 'position integrated with the old velocity' "
-                                                         "violates SemiImplicit")
-    if not q:
-        L.negative_tlc(ctx, "Integrators", "Integrators_Neg2", "spec variant 'RK 3/8 weights' violates RK4Taylor")
-    singles = [e for e in out["mc"][1] + out["act"][1] if e["op"] == "step"]
+    L.negative_record(ctx, out["neg1"], "spec variant 'position integrated with the old velocity' violates SemiImplicit")
+    if out["neg2"] is not None:
+        L.negative_record(ctx, out["neg2"], "spec variant 'RK 3/8 weights' violates RK4Taylor")
+    singles = [e for k in ("mc", "act") if out[k] for e in out[k][1] if e["op"] == "step"]
+    # vacuity: every integrator (hence every integration action and the phases before it) completed steps
+    for name, evs in (("exhaustive", singles), ("simulated", [e for b in out["sim"][1] for e in b if e["op"] == "step"])):
+        seen = {e["p"]["integ"] for e in evs}
+        if seen != set(INTEG):
+            raise Machinery("vacuity: %s steps only cover integrators %s" % (name, sorted(seen)))
     quats = [e for e in out["quat"][1] if e["op"] == "quat"]
     sims = [[e for e in b if e["op"] == "step"] for b in out["sim"][1]]
     sims = [b for b in sims if b]
@@ -342,12 +357,12 @@ def run(ctx):
     ctx.trace_ok(nb + len(sims) - len(bad))
     nq, nqbad = run_quat(ctx, exe, quats)
     nex = sum(1 for c in rp.cases if c[0] == "step" and c[3]["exact"])
-    ctx.cov["exhaustive"] = all(out[k][0].finished for k in ("mc", "act", "quat"))
+    ctx.cov["exhaustive"] = all(out[k][0].finished for k in ("mc", "act", "quat") if out[k])
     ctx.cov["rule"] = ("every completed step of the exhaustive runs %s / %s (%d steps, each replayed from its pre-state) + %d "
                        "simulated multi-step behaviours of %s (state carried by the implementation) through mj_step; %d of "
                        "%d steps compared exactly, the rest to 1e-10; %d free/ball-joint behaviours checked for unit norm; "
                        "non-trivial = every step (a step always advances time); distinct = distinct (parameters, "
-                       "pre-state, control, step index)" % (jobs["mc"][1], jobs["act"][1], nb, len(sims), jobs["sim"][1],
+                       "pre-state, control, step index)" % (jobs["mc"][1], jobs["act"][1] or "-", nb, len(sims), jobs["sim"][1],
                                                              nex, nstep, nq))
 
 
